@@ -138,7 +138,8 @@ fn gen_message(conn: usize, i: usize, s: usize, last: bool, allow_ambiguous: boo
         }
         2 => {
             // invalid single value
-            let v = gen::pick(&["+5", "-1", "0x10", "5,5", "", "abc", "18446744073709551616", "5 5", "1e3", "٣"]).to_string();
+            // (digits with a control byte next to them: only SP and HTAB are optional whitespace)
+            let v = gen::pick(&["+5", "-1", "0x10", "5,5", "", "abc", "18446744073709551616", "5 5", "1e3", "٣", "5\u{c}", "\u{c}5", "5\u{b}", "\u{b}5", "5\u{0}", "5\u{7f}", "\u{1f}5", "5\u{c}\u{c}"]).to_string();
             if v == "٣" {
                 return None;
             }
@@ -511,7 +512,7 @@ pub fn spec() -> PropertySpec {
     PropertySpec {
         id: "C03",
         level: "exploration",
-        rule: "Histories of 1-8 messages on one simulated connection to the real server with a recording handler that always fetches pending bodies. Each message draws method class x Content-Length multiset (absent; valid 0, 1, <=S, >S, >8 KiB buffer, padded, 2^64-1; +5, -1, 0x10, '5,5', empty, non-numeric, 2^64, '5 5', 1e3; repeated equal / different / differing in name case) x Transfer-Encoding multiset (absent, chunked, gzip, gzip+chunked, reversed, unknown, repeated) x Expect x Content-Type (every table entry, parameters, unknown) x 0-2 Cookie fields, fields shuffled. Bodies are filled with decoy request heads; every genuine request has a unique path. Delivery: pipelined or ping-pong, whole / byte-wise / random fragments, short socket reads. Oracle: an independent framing model folds the header multisets into Body(n) / Empty / UntilEof / Coded / Reject verdicts, giving the exact handler log (bodies, content type, expect flag, cookie map, coding flags) and responses; no decoy may ever reach the handler. A coding together with a Content-Length (0 included) is generated too: the statement pins no single reading (its length clause and its coding clause both apply), so three are accepted: coding reported and refused when read, rejected outright, or - length 0 only - framed by the length. Combinations the statement does not pin (empty list elements, Expect without length on bodiless methods) are not generated. distinct = schedule hash; non-trivial = at least 2 messages.",
+        rule: "Histories of 1-8 messages on one simulated connection to the real server with a recording handler that always fetches pending bodies. Each message draws method class x Content-Length multiset (absent; valid 0, 1, <=S, >S, >8 KiB buffer, padded, 2^64-1; +5, -1, 0x10, '5,5', empty, non-numeric, 2^64, '5 5', 1e3; repeated equal / different / differing in name case) x Transfer-Encoding multiset (absent, chunked, gzip, gzip+chunked, reversed, unknown, repeated) x Expect x Content-Type (every table entry, parameters, unknown) x 0-2 Cookie fields, fields shuffled. Bodies are filled with decoy request heads; every genuine request has a unique path. Delivery: pipelined or ping-pong, whole / byte-wise / random fragments, short socket reads. Oracle: an independent framing model folds the header multisets into Body(n) / Empty / UntilEof / Coded / Reject verdicts, giving the exact handler log (bodies, content type, expect flag, cookie map, coding flags) and responses; no decoy may ever reach the handler. A coding together with a Content-Length (0 included) is generated too: the statement pins no single reading (its length clause and its coding clause both apply), so three are accepted: coding reported and refused when read, rejected outright, or - length 0 only - framed by the length. Combinations the statement does not pin (empty list elements, Expect without length on bodiless methods) are not generated. distinct = schedule hash; non-trivial = at least 2 messages. Second stage (HttpConn level): a sized request followed by a pipelined one, with ONE transient (EINTR-like) read error on the server side of the socket after k stream bytes, k enumerated over every offset; giving up with an error and a correct retry are both accepted, a body of any other length than Content-Length or a next request parsed from the wrong byte is not.",
         scenarios: vec![Scenario { name: "c03.framing", property: "C03", func: scenario, runs_quick: 250_000, runs_thorough: 8_000_000, doc: "framing histories" },
             Scenario { name: "c03.interrupted_read", property: "C03", func: interrupted_read, runs_quick: 150_000, runs_thorough: 3_000_000, doc: "transient read error at every offset of a sized request + pipelined request (HttpConn level)" },
         ],
